@@ -86,7 +86,7 @@ def main():
         "setup_cmd": "cd /verif/sim && CARGO_NET_OFFLINE=true cargo build --release --offline && CARGO_NET_OFFLINE=true cargo build --profile plain --offline",
         "hooks": {
             "guard": "--cfg nexrad_verif",
-            "enable": "RUSTFLAGS='--cfg nexrad_verif' (set in /verif/sim/.cargo/config.toml); the harness depends on /repo/nexrad-{data,decode,model} by path, so every build uses /repo's working tree",
+            "enable": "RUSTFLAGS='--cfg nexrad_verif' (set in /verif/sim/.cargo/config.toml); the harness depends on /repo/nexrad-{data,decode,model} by path, so every build uses /repo's working tree; two builds: --release (debug assertions and overflow checks on) and --profile plain (off)",
             "baseline_off_cmd": "cd /repo && cargo test --workspace --no-fail-fast --offline",
             "source_commits": repo_commits("verif hooks"),
             "add_only": True,
@@ -99,7 +99,7 @@ def main():
         ],
         "checks": checks,
         "not_applicable": [{"property_id": k, "reason": v} for k, v in sorted(NOT_APPLICABLE.items())],
-        "notes": "One technique only: deterministic simulation with fault injection (see DESIGN.md). Exit codes: 0 held, 1 VIOLATION, 2 harness error (never a verdict). VERIF_SEED selects the seed (default 20240804). Fix commits in /repo: " + ", ".join(repo_commits("fix:")),
+        "notes": "One technique only: deterministic simulation with fault injection (see DESIGN.md). Exit codes: 0 held, 1 VIOLATION, 2 harness error (never a verdict). VERIF_SEED selects the seed (default 20240804). Every check runs its plan on 16 single-threaded worker processes in three build/environment variants (std: debug assertions + overflow checks; plain: plain release build; tz: non-UTC local time zone) and a quarter of the runs with trace logging enabled; replay files record their variant. Sensitivity: SENSITIVITY.md (48/48 hand-written mutants, 5/5 controls quiet, 94/96 independent sub-agent changes; the 2 misses are outside the statements). Fix commits in /repo: " + ", ".join(repo_commits("fix:")),
     }
     with open(os.path.join(ROOT, "MANIFEST.json"), "w") as f:
         json.dump(manifest, f, indent=1)
